@@ -11,7 +11,7 @@ COQ_HEADER = ("From Coq Require Import String List ZArith Bool.\n"
               "From RV Require Import Model.Color Run.C31.\nImport ListNotations.\nLocal Open Scope string_scope.")
 RUN_EXPR = "Run.C31.run"
 RULE = ("rgb()/hsl()/hwb() calls with random and boundary channel values (in range, out of range, tiny negative hue, "
-        "fractional), all named colours, random hex colours; distinct = distinct expression; non-trivial = not a named colour")
+        "fractional), hwb-form colours with hues outside [0,360) each compared with itself moved by whole turns, all named colours, random hex colours; distinct = distinct expression; non-trivial = not a named colour")
 EXHAUSTIVE = {"quick": False, "thorough": False}
 TRUSTED = ["Rust str::parse::<f64> is correctly rounded (arguments reach rsass as decimal text, the model as bits)",
            "Base/FMod.v: exact fmod on the binary64 representation"]
@@ -68,6 +68,14 @@ def gen_cases(ctx, tier):
             p = [rng.choice(PCT) if rng.random() < 0.5 else float(rng.randrange(0, 101)) for _ in range(2)]
             v = [h] + p
         cases.append({"k": k, "in": [float(x) for x in v] + [float(a)]})
+    # hwb-form colours (non-integer rgb channels) whose hue is outside [0, 360) or fractional
+    for e in [[10, 20.5, 30, 1], [370, 20.5, 30, 1], [-350, 20.5, 30, 1], [30, 10, 20, 1], [725.5, 12.5, 33, 0.5], [-40, 7, 61, 1]]:
+        cases.append({"k": "hwb", "in": [float(x) for x in e]})
+    for _ in range(70 if tier == "quick" else 1200):
+        h = rng.choice([10, 30.5, 200, 359.5, 370, 400, 725.5, -40, -350, -700.25, 1090])
+        w = rng.choice([20.5, 10, 7, 12.5, 33, 0.5, 41])
+        b = rng.choice([30, 20, 61, 12.5, 3, 45.5])
+        cases.append({"k": "hwb", "in": [float(h), float(w), float(b), float(rng.choice([1, 1, 0.5]))]})
     for name, _ in color_names():
         cases.append({"k": "named", "name": name})
     cases.append({"k": "named", "name": "transparent"})
@@ -78,6 +86,8 @@ def gen_cases(ctx, tier):
         s = expr_of(c)
         if s not in seen:
             seen.add(s)
+            if c["k"] == "hwb":
+                c["turns"] = rng.choice([1, -1, 2, -2, 3])
             out.append(c)
     return out
 
@@ -107,13 +117,21 @@ def expr_of(c):
     return f"hwb({ntext(v[0])} {ntext(v[1])}% {ntext(v[2])}% / {ntext(v[3])})"
 
 
+def shifted(c):
+    """the same hwb() colour with its hue argument moved by whole turns (only for hwb cases)."""
+    v = list(c["in"])
+    v[0] = v[0] + 360.0 * c.get("turns", 1)
+    return expr_of(dict(c, **{"in": v}))
+
+
 def impl_requests(c):
     e = expr_of(c)
+    turn = ("evalv", f"{e} == {shifted(c)}") if c["k"] == "hwb" else ("evalv", "1 == 1")
     return [("color", e),
             ("evalv", f"rgb(red({e}), green({e}), blue({e}), alpha({e})) == {e}"),
             ("evalv", f"hsl(hue({e}), saturation({e}), lightness({e}), alpha({e})) == {e}"),
             ("scss", "expanded", "10", f"@use \"sass:color\";\n$c: {e};\na {{b: color.hwb(color.hue($c), color.whiteness($c), color.blackness($c), alpha($c)) == $c}}\n"),
-            ("coloreq", e)]
+            ("coloreq", e), turn]
 
 
 def prepare(ctx):
@@ -155,8 +173,8 @@ def coq_term(c, io):
 
 
 def judge(c, io, r):
-    corr, rgb, hue, sl, wb, k1, k2, k3, k4, k5 = r
-    eqs = [eq_answer(x) for x in io[1:5]]
+    corr, rgb, hue, sl, wb, k1, k2, k3, k4, k5, is_hsla = r
+    eqs = [eq_answer(x) for x in io[1:6]]
     if io[0][0] in ("panic", "crash"):
         corr = 0
     K1, K2, K3, K4, K5 = ("known_C31_K1_hue_360", "known_C31_K2_hsl_unclamped", "known_C31_K3_hwb_unclamped",
@@ -172,11 +190,14 @@ def judge(c, io, r):
           ("whiteness-blackness-range", wb == 1, first((k3, K3), (k2, K2))),
           ("rebuild-rgb-equal", eqs[0] == 1, first((k4, K4))),
           ("rebuild-hsl-equal", eqs[1] == 1, first((k5, K5))),
-          ("rebuild-hwb-equal", eqs[2] == 1, first((k5, K5))),
-          ("same-rgba-equal", eqs[3] == 1, None)]
+          # two hwb-form colours are compared through their rgba channels: K5 only concerns colours kept in hsl form
+          ("rebuild-hwb-equal", eqs[2] == 1, first((is_hsla, K5))),
+          ("same-rgba-equal", eqs[3] == 1, None),
+          ("hue-whole-turns-equal", eqs[4] == 1, None)]
+    show = expr_of(c) + (f" vs {shifted(c)}" if c["k"] == "hwb" else "")
     return {"corr": corr == 1, "clauses": cl, "nontrivial": c["k"] != "named",
             "tags": [c["k"]] + [f"K{i+1}" for i, k in enumerate([k1, k2, k3, k4, k5]) if k],
-            "show": expr_of(c), "detail": expr_of(c)}
+            "show": show, "detail": show}
 
 
 def shrink(c):
